@@ -97,6 +97,59 @@ def correspondence(ctx, drv):
             d.append("transmissions")
         if d:
             ctx.disagreement("simple-tape:" + ";".join(d)[:300], dict(rep, diffs=d))
+    generated_model(ctx, reqs, metas)
+
+
+def generated_model(ctx, reqs, metas):
+    """the Lean code GENERATED from the source of Gillespie_simple_contagion (harness/pysimple2lean.py ->
+    Gen/SimpleGen.lean: bookkeeping set-up, initial population, the whole event loop), run by its own driver on the same
+    scripted draws as the implementation.  Compared: RNG-call trace (clock rates, candidate lists), times, count
+    columns, the transmission list and every node history (the implementation ran with full data)."""
+    import fcntl, subprocess, os, json, pysimple2lean, pyclass2lean
+    lean = common.LEAN
+    os.makedirs(os.path.join(lean, ".audit"), exist_ok=True)
+    with open(os.path.join(lean, ".audit", "gengill.lock"), "w") as lock:
+        fcntl.flock(lock, fcntl.LOCK_EX)
+        try:
+            _, e1 = pyclass2lean.regenerate()
+            _, e2 = pysimple2lean.regenerate()
+            errors = dict(e1, **e2)
+        except Exception as e:
+            errors = {"translator": "crashed: %r" % e}
+        if errors:
+            ctx.disagreement("generated-simple:translation", dict(entry="Gillespie_simple_contagion", errors=errors))
+            return
+        p = common.lake(["build", "driversc"])
+    if p.returncode != 0:
+        ctx.disagreement("generated-simple:build", dict(entry="Gillespie_simple_contagion", log="\n".join(
+            l for l in (p.stdout + p.stderr).splitlines() if "error" in l)[:1500]))
+        return
+    exe = os.path.join(lean, ".lake", "build", "bin", "driversc")
+    data = "\n".join(json.dumps(dict(r, full=True), separators=(",", ":")) for r in reqs) + "\n"
+    q = subprocess.run([exe], input=data, capture_output=True, text=True)
+    lines = q.stdout.splitlines()
+    if q.returncode != 0 or len(lines) != len(reqs):
+        raise RuntimeError("driversc crashed: " + q.stderr[-1000:])
+    for (rep, out, plain, c, ev_checks), line in zip(metas, lines):
+        g = json.loads(line)
+        ctx.count("generated-model-runs")
+        if not g.get("ok"):
+            ctx.disagreement("generated-simple-error", dict(rep, generated=g))
+            continue
+        d = []
+        if g["trace"] != out["trace"]:
+            i = next((i for i in range(min(len(g["trace"]), len(out["trace"]))) if g["trace"][i] != out["trace"][i]), -1)
+            d.append("RNG trace at call %d: impl %s generated %s" % (i, out["trace"][i] if 0 <= i < len(out["trace"]) else None,
+                                                                   g["trace"][i] if 0 <= i < len(g["trace"]) else None))
+        if plain["ok"] and (plain["times"] != g["times"] or plain["cols"] != g["cols"]):
+            d.append("arrays")
+        if out["transmissions"] != g["trans"]:
+            d.append("transmissions")
+        hist = {h[0]: [[t, s_] for t, s_ in zip(h[1], h[2])] for h in g["history"]}
+        if [hist.get(i) for i in range(c["n"])] != out["history"]:
+            d.append("node histories")
+        if d:
+            ctx.disagreement("generated-simple-tape:" + ";".join(d)[:300], dict(rep, diffs=d))
 
 
 def one_step_law(ctx, drv):
